@@ -120,9 +120,11 @@ def ensure_usable(rng, desc):
     return desc
 
 
-def gen_spec(rng, st, has_missing_ts):
+def gen_spec(rng, st, has_missing_ts, force_cls=None):
     own = [c for c in H.ADMISSIBLE[st] if c != "LinearModelEncoder"]
     cls = "LinearModelEncoder" if rng.chance(0.12) else rng.pick(own)
+    if force_cls is not None:
+        cls = force_cls
     na = rng.pick(H.NA_ADMISSIBLE[st])
     kw = {}
     if cls == "TimestampEncoder":
@@ -197,13 +199,22 @@ def apply_boundaries(rng, desc, which):
     return desc
 
 
-def gen_frame_case(rng, tier):
+NUM_CLASSES = ["LinearEncoder", "StackEncoder", "LinearBucketEncoder", "LinearPeriodicEncoder", "ExcelFormerEncoder"]
+
+
+def gen_frame_case(rng, tier, k=None):
+    """k: running index; every second frame is stratified: it has a numerical column, whose encoder class and
+    post-module form cycle through all 5 x 10 combinations (the numerical classes are otherwise drawn rarely)"""
     stypes = FRAME_STYPES + ["numerical", "numerical", "categorical", "multicategorical", "timestamp"]
     which = []
     if rng.chance(0.4):
         which = rng.sample(BOUNDARIES, rng.randint(1, 3))
-    desc = G.gen_frame(rng, stypes=stypes, index_kinds=["range", "range", "offset", "perm"],
-                       n=1 if "one row" in which else None)
+    strat = k is not None and k % 2 == 0
+    for _ in range(8):
+        desc = G.gen_frame(rng, stypes=stypes, index_kinds=["range", "range", "offset", "perm"],
+                           n=1 if "one row" in which else None)
+        if not strat or any(c["stype"] == "numerical" and c["name"] != desc["target"] for c in desc["cols"]):
+            break
     desc = ensure_usable(rng, apply_boundaries(rng, desc, which))
     feats = [c for c in desc["cols"] if c["name"] != desc["target"]]
     parents = []
@@ -213,6 +224,9 @@ def gen_frame_case(rng, tier):
             parents.append(p)
     missing_ts = any(not isinstance(cell, list) for c in feats if c["stype"] == "timestamp" for cell in c["cells"])
     enc = {p: gen_spec(rng, p, missing_ts) for p in parents}
+    if strat and "numerical" in enc:
+        enc["numerical"] = gen_spec(rng, "numerical", missing_ts, force_cls=NUM_CLASSES[(k // 2) % 5])
+        enc["numerical"]["post"] = H.POSTS[(k // 10) % len(H.POSTS)]
     order = list(enc)
     rng.shuffle(order)
     n = desc["n"]
@@ -314,8 +328,8 @@ def gen_reject_case(rng, tier):
 
 
 def generate(rng, tier):
-    nf, nl, nr = (150, 220, 120) if tier == "quick" else (4000, 5000, 2500)
-    cases = [gen_frame_case(rng, tier) for _ in range(nf)]
+    nf, nl, nr = (120, 180, 100) if tier == "quick" else (4000, 5000, 2500)
+    cases = [gen_frame_case(rng, tier, k) for k in range(nf)]
     cases += [gen_lazy_case(rng, tier) for _ in range(nl)]
     cases += [gen_reject_case(rng, tier) for _ in range(nr)]
     if tier == "thorough":
@@ -873,7 +887,7 @@ def oracle_frame(case, obs):
             infs = [(c["name"], r) for c in desc["cols"] if c["stype"] == "numerical" and c["name"] != desc["target"]
                     for r in rows if isinstance(c["cells"][r], str)]
             num_post = (case["enc"].get("numerical") or {}).get("post")
-            if infs and num_post not in ("layernorm", "seq"):   # only normalising post-modules overflow
+            if infs and num_post not in ("layernorm", "seq", "seq_inplace"):   # only normalising post-modules overflow
                 # the known finding needs a normalising post-module; without one the clean code stays finite
                 return dict(key="inf-cell-non-finite-output:no-post-module",
                             what=f"batch {b}: an infinite numerical cell {infs[0]} gives a non-finite output although "
